@@ -81,9 +81,15 @@ Definition enc_slot (x : option Z * Z) : list Z := [match fst x with Some v => v
 
 (* PushWait(v, -1) and PopWait(-1) are the loops "try; if it failed, runtime.Gosched(); try again" around Push / Pop:
    they are run as such on top of the step model (program codes 1000000 + v and -10). *)
-Definition is_wait (x : Z) : bool := (1000000 <=? x) || (x =? -10).
-Definition attempt_of (x : Z) : op := if x =? -10 then OpPop else OpPush (x - 1000000).
-Record rthread := { r_prog : list Z; r_wait : Z; r_yield : bool; r_res : list Z }.
+(* timed forms PushWait(v, d) / PopWait(d), d >= 0, with the 10 ms ticker: one try, then one more try per tick until
+   the deadline has passed, i.e. at most n further tries for d in ((n-1)*10ms, n*10ms]; codes 2000000 + 10000*n + v
+   and -100 - n (the clock is virtual under the shim, so n is exact) *)
+Definition is_wait (x : Z) : bool := (1000000 <=? x) || (x =? -10) || (x <=? -100).
+Definition attempt_of (x : Z) : op :=
+  if x <? 0 then OpPop else if x <? 2000000 then OpPush (x - 1000000) else OpPush ((x - 2000000) mod 10000).
+Definition tries_of (x : Z) : Z :=      (* further tries allowed after a failed one; -1 = unbounded (with Gosched) *)
+  if x <=? -100 then - x - 100 else if 2000000 <=? x then (x - 2000000) / 10000 else -1.
+Record rthread := { r_prog : list Z; r_wait : Z; r_left : Z; r_yield : bool; r_res : list Z }.
 Definition EvGosched := 10.
 
 (* run the schedule; programs are consumed when an idle thread is scheduled; entries for a thread with
@@ -98,7 +104,7 @@ Fixpoint go (c : config) (rts : list rthread) (sched : list Z) (acc : list Z) : 
       | Some p, Some rt =>
           let idle := match p with Idle => true | _ => false end in
           if idle && r_yield rt then
-            go c (updl rts i {| r_prog := r_prog rt; r_wait := r_wait rt; r_yield := false; r_res := r_res rt |}) rest
+            go c (updl rts i {| r_prog := r_prog rt; r_wait := r_wait rt; r_left := r_left rt; r_yield := false; r_res := r_res rt |}) rest
                (rev_append [t; 1; EvGosched; 0; 0; 0; 0] acc)
           else
           (* which operation does an idle thread start, and what is left of its program *)
@@ -108,8 +114,8 @@ Fixpoint go (c : config) (rts : list rthread) (sched : list Z) (acc : list Z) : 
             else match r_prog rt with
                  | [] => None
                  | x :: more =>
-                     if is_wait x then Some (attempt_of x, {| r_prog := more; r_wait := x; r_yield := false; r_res := r_res rt |})
-                     else Some (dec_op x, {| r_prog := more; r_wait := 0; r_yield := false; r_res := r_res rt |})
+                     if is_wait x then Some (attempt_of x, {| r_prog := more; r_wait := x; r_left := tries_of x; r_yield := false; r_res := r_res rt |})
+                     else Some (dec_op x, {| r_prog := more; r_wait := 0; r_left := 0; r_yield := false; r_res := r_res rt |})
                  end in
           match start with
           | None => go c rts rest acc
@@ -124,9 +130,11 @@ Fixpoint go (c : config) (rts : list rthread) (sched : list Z) (acc : list Z) : 
                     if returned then
                       match last (map (fun e => Some (snd e)) (hist c')) None with
                       | Some r =>
-                          if (r_wait rt1 =? 0) || res_success r
-                          then {| r_prog := r_prog rt1; r_wait := 0; r_yield := false; r_res := rev_append (enc_res r) (r_res rt1) |}
-                          else {| r_prog := r_prog rt1; r_wait := r_wait rt1; r_yield := true; r_res := r_res rt1 |}
+                          if (r_wait rt1 =? 0) || res_success r || (r_left rt1 =? 0)
+                          then {| r_prog := r_prog rt1; r_wait := 0; r_left := 0; r_yield := false; r_res := rev_append (enc_res r) (r_res rt1) |}
+                          else if r_left rt1 <? 0     (* unbounded: Gosched, then try again *)
+                          then {| r_prog := r_prog rt1; r_wait := r_wait rt1; r_left := -1; r_yield := true; r_res := r_res rt1 |}
+                          else {| r_prog := r_prog rt1; r_wait := r_wait rt1; r_left := r_left rt1 - 1; r_yield := false; r_res := r_res rt1 |}
                       | None => rt1
                       end
                     else rt1 in
@@ -149,7 +157,7 @@ Definition run_case (args : list Z) : list Z :=
       let (progs, r1) := get_lists n r in
       let (sched, _) := get_list r1 in
       let c0 := seq_state k (bh * 2 ^ 32 + bl) fill n in
-      let rts := map (fun pr => {| r_prog := pr; r_wait := 0; r_yield := false; r_res := [] |}) progs in
+      let rts := map (fun pr => {| r_prog := pr; r_wait := 0; r_left := 0; r_yield := false; r_res := [] |}) progs in
       match go c0 rts (sched ++ completion n progs) [] with
       | None => [PANIC]
       | Some (c, rts', acc) =>
